@@ -1,4 +1,8 @@
-"""Per-property configuration of bin/check."""
+"""Per-property configuration of bin/check: one JSON file per property in bin/props.d/
+({"props": {...}, "texts": {...}}), so that parallel work does not conflict."""
+import glob
+import json
+import os
 
 COMMON_TRUSTED = [
     "Lean 4.33.0 kernel (thorough tier: re-checked with leanchecker)",
@@ -7,91 +11,11 @@ COMMON_TRUSTED = [
     "corr harness (harness/cmd/corr) and Lean driver codec (lean/Driver): correspondence and canonicalisation",
 ]
 
-PROPS = {
-    "C13": {
-        "lean": ["UgoVerif.Props.C13"],
-        "gen": ["SymFacts.lean"],
-        "streams": ["symops", "disable"],
-        "required_theorems": ["resolve_disabled", "resolve_disabled_undeclared", "fork_keeps_disabled",
-                              "module_table_keeps_disabled", "evaluator_table_disabled", "shadow_then_resolve",
-                              "shadow_then_resolve_nested", "eval_fragments_persist", "no_getbuiltin_partial",
-                              "fact_resolve_guard", "fact_compileModule_copies", "fact_evaluator_copies",
-                              "fact_getbuiltin_sites", "fact_builtin_scope_sites", "fact_newSymbolTable_sites",
-                              "fact_disable_evicts", "fact_builtins_distinct"],
-        "trusted": [
-            "hand model Model/Sym.lean (symbol_table.go statement by statement on a heap of tables; module-table lines of compileModule; first lines of optimizerEval.resetCompiler) tied by stream `symops` through the verif hooks of symbol_table_verif.go",
-            "goextract symfacts.go: prints Go statements/conditions with go/printer; the decide facts compare them with the expected text",
-            "stream `disable`: the property's own oracle on the implementation (compile errors, GETBUILTIN scan of every CompiledFunction, instrumented BuiltinObjects at compile and run time)",
-        ],
-        "assumptions": [
-            "no_getbuiltin is proved as a reduction (no_getbuiltin_partial): the compiler is abstracted as a trace of symbol-table calls on its own family of tables plus compileIdent/destructuring emissions (CompilerDiscipline); the compile* functions themselves are not modelled",
-            "*Symbol pointers are modelled by value (mutation of Assigned/Constant/Index through a pointer is outside the model); Go int is Int",
-            "a reused evaluator table is represented by a fresh one in the compiler trace (justified by evaluator_table_disabled, which covers both)",
-            "Bytecode produced by other means than the compiler (hand-made or decoded Bytecode) is out of scope",
-        ],
-        "partial": [
-            {"theorem": "no_getbuiltin_partial", "full_statement": "C13_full",
-             "missing": "a Lean model of compile* establishing CompilerDiscipline (that every GETBUILTIN of the Bytecode comes from compileIdent's BUILTIN case or from destructuring, and that the compiler only uses tables of its family); pinned by the regenerated facts fact_getbuiltin_sites, fact_newSymbolTable_sites, fact_builtin_scope_sites and tested by stream `disable`"},
-        ],
-    },
-    "C15": {
-        "lean": ["UgoVerif.Props.C15"],
-        "gen": ["Numeric.lean", "NumericSimp.lean"],
-        "streams": ["ops"],
-        "required_theorems": ["equal_comm", "neq_not_eq", "binop_no_panic", "trichotomy",
-                              "le_iff_lt_or_eq", "lt_flip"],
-        "trusted": [
-            "hand model Model/Ops.lean (Array/Map Equal and BinaryOp recursion, dispatch on the left operand) tied by stream `ops`",
-            "FloatOps: float + - * / and int->float conversions are parameters; theorems hold for every instance",
-        ],
-        "assumptions": [
-            "IEEE-754 comparison is the bit-pattern definition Go.feq/flt/fle (validated against Go on the boundary pool by stream `ops`)",
-            "user-defined Object implementations, *SyncMap and *RuntimeError are outside the modelled value set",
-            "trichotomy assumes int/uint->float conversions never produce NaN (FloatOps.ConvNoNaN)",
-        ],
-    },
-    "C17": {
-        "lean": ["UgoVerif.Props.C17"],
-        "gen": ["JsonTables.lean"],
-        "streams": ["json"],
-        "required_theorems": ["escape_valid", "escape_valid_doc", "marshal_valid_partial", "marshal_valid_rawfree",
-                              "encode_valid", "marshal_unsupported_is_error", "marshal_toplevel_error_empty",
-                              "marshal_full_false", "C17_full_false", "valid_no_panic", "indent_no_panic"],
-        "trusted": [
-            "Spec/Json.lean: RFC 8259 recogniser isJson (fuel = length + 1); compared with encoding/json.Valid on every byte string of stream `json`",
-            "hand models Model/JsonEnc.lean (Marshal), Model/JsonScan.lean (scanner, Valid, Compact, Indent), Go/Utf8.lean (utf8.DecodeRune), tied by stream `json`",
-            "JsonLib: strconv.AppendFloat is a parameter; hypothesis JsonLib.OK (text written for a finite float is a JSON number token made of bytes that need no escaping) is checked by the driver on every float of the stream",
-            "strconv.AppendInt/AppendUint and base64.StdEncoding are modelled concretely (fmtInt, fmtNat, base64) and tied by the stream",
-        ],
-        "assumptions": [
-            "JsonLib.OK (strconv.AppendFloat 'f'/'e' output, after the e-0N clean-up, is a JSON number token)",
-            "values are finite trees: cycle detection (ptrLevel/ptrSeen) is outside the model",
-            "raw messages (bytes returned by a Marshaler) are covered by marshal_valid_partial only under CompactWritesValue; TextMarshaler objects and stdlib/time values are outside the modelled value set",
-            "agreement with encoding/json (same bytes, same accepted documents, Compact/Indent/Unmarshal results) is established by differential sampling, not by proof; the decoder (decode.go) is not modelled",
-        ],
-        "partial": [
-            "marshal_valid_partial: hypotheses isTopErr v = false (open finding C17:marshal-empty:toplevel-error-value, refutation marshal_full_false) and rawsOK CompactWritesValue v (compact validity not proved)",
-            "C17_full: scanner_sound/scanner_complete, compact/indent validity and the Unmarshal round trip are stated/tested, not proved; of the scanner only valid_no_panic / indent_no_panic are proved (compact's slice bounds are not)",
-    "C20": {
-        "lean": ["UgoVerif.Props.C20"],
-        "gen": ["Conv.lean", "ConvReg.lean"],
-        "streams": ["conv"],
-        "required_theorems": ["toObject_toInterface", "toObjectAlt_toInterface", "toInterface_toObject",
-                              "toInterface_toObjectAlt", "width_value", "width_value_toObject",
-                              "width_unsupported_toObject", "width_value_float", "unsupported_is_error",
-                              "registry_nil_safe", "conv_no_panic", "toInterface_total", "sim_scalar"],
-        "trusted": [
-            "goextract conv.go: scalar cases of ToObject/ToObjectAlt/ToInterface translated expression by expression; the element loops, the SyncMap case and the registry fall-back are recognised by exact comparison of the printed case body with a template (anything else fails closed)",
-            "hand model Model/ConvReg.lean of package registry and the converters registered by stdlib/time, stdlib/json, stdlib/fmt (which types are registered and whether a converter dereferences its pointer unguarded is the regenerated table Gen/ConvReg.lean), tied by stream `conv`",
-            "ConvOps.f32to64: float64(float32) is a parameter; theorems hold for every instance",
-        ],
-        "assumptions": [
-            "int, uint and uintptr are 64 bits wide (64-bit targets)",
-            "float64(float32) is exact (Go specification, Conversions between numeric types); float width_value is stated relative to it",
-            "Error() of a non-nil error value returns (a panic inside a user-supplied Error method is the caller's); an error holding a nil pointer is modelled as the worst case (its Error method dereferences the receiver)",
-            "Go maps are association lists with unique keys; which of several failing entries of one map[string]any is reported first depends on Go's map iteration order and is excluded by the generator",
-            "user-defined Object implementations are opaque (`Obj.other`): the conversions return them unchanged and never call their methods",
-            "ToObjectAlt is documented to turn every signed integer into Int: its round-trip theorems exclude rune/char (toObjectAlt_char shows the value is kept)",
-        ],
-    },
-}
+_D = os.path.join(os.path.dirname(os.path.abspath(__file__)), "props.d")
+PROPS = {}
+TEXTS = {}
+for _f in sorted(glob.glob(os.path.join(_D, "*.json"))):
+    _pid = os.path.basename(_f)[:-5]
+    _j = json.load(open(_f))
+    PROPS[_pid] = _j["props"]
+    TEXTS[_pid] = _j["texts"]
